@@ -235,7 +235,7 @@ fn g_ctap2(src: &mut Src, obs: &mut Obs) -> CaseResult {
             return Err(fail("argument-changed", format!("{}: handler received different parameters", ename)));
         }
         if got != want {
-            return Err(fail("result", format!("{}: returned {:?}, expected {:?}", ename, got.as_ref().map(|_| "Ok(..)"), want.as_ref().map(|_| "Ok(..)"))));
+            return Err(fail("result", format!("{}: returned {}, expected {}", ename, render2(&got), render2(&want))));
         }
         let _ = m.0.has_large_blobs;
     }
@@ -305,10 +305,19 @@ fn g_ctap1(src: &mut Src, obs: &mut Obs) -> CaseResult {
             return Err(fail("wrong-handler-or-argument", format!("{}: {} invoked", ename, m.0.log[0].0)));
         }
         if got != want {
-            return Err(fail("result", format!("{}: returned {:?}, expected {:?}", ename, got.as_ref().map(|_| "Ok(..)"), want.as_ref().map(|_| "Ok(..)"))));
+            return Err(fail("result", format!("{}: returned {:?}, expected {:?}", ename, got, want)));
         }
     }
     Ok(())
+}
+
+fn render2(r: &Result<ctap2::Response, E2>) -> String {
+    let s = format!("{:?}", r);
+    if s.len() > 160 {
+        format!("{}...", &s[..160])
+    } else {
+        s
+    }
 }
 
 pub const G2: Gen = Gen { name: "c10_ctap2", f: g_ctap2 };
